@@ -100,7 +100,7 @@ def templated(rng):
     """structured scenarios (mostly valid, specific multi-step shapes) with random variation"""
     drv = rng.choice([0, 1, 1])
     cap = rng.choice([1, 2, 4, 1024])
-    t = rng.randrange(9)
+    t = rng.randrange(10)
     S = []
     if t == 0:
         # several operations queued on ONE descriptor, one of them (often the head) is cancelled
@@ -176,6 +176,19 @@ def templated(rng):
         for _ in range(rng.randrange(3, 6)):
             S += [(16, 0, 0), (5, rng.choice([0, 5, 10]), 0)]
         S += [(6, i, 0) for i in range(k)]
+    elif t == 9:
+        # final completions sit unreaped in the completion queue when the driver goes away
+        k = rng.randrange(1, 4)
+        for i in range(k):
+            S.append((rng.choice([1, 1, 2]), i % 2, 4))
+        for r in range(2):
+            if rng.random() < 0.8:
+                S.append((4, r, rng.choice([1, 2, 4])))
+        if rng.random() < 0.4:
+            S.append((7, rng.randrange(k), 0))
+        if rng.random() < 0.2:
+            S.append((rng.choice([8, 9]), rng.randrange(k), 0))
+        S.append((10, rng.choice([0, 1]), 0))
     else:
         # cancel after completion / twice, neighbours keep their data
         S += [(1, 0, 4), (1, 0, 4), (4, 0, 8), (5, 10, 0), (5, 5, 0)]
